@@ -66,7 +66,8 @@ func errorAs(err error, targetType reflect.Type) bool {
 	}
 }
 
-// MergeContexts returns a context that is canceled when either ctx1 or ctx2 are Done.
+// MergeContexts returns a context that is canceled when either ctx1 or ctx2 are Done. The returned context is derived
+// from ctx1, so it carries ctx1's values and deadline.
 func MergeContexts(ctx1, ctx2 context.Context) (context.Context, context.CancelCauseFunc) {
 	bgContext := context.Background()
 	if ctx1 == bgContext {
@@ -75,16 +76,14 @@ func MergeContexts(ctx1, ctx2 context.Context) (context.Context, context.CancelC
 	if ctx2 == bgContext {
 		return ctx1, noop
 	}
-	ctx, cancel := context.WithCancelCause(context.Background())
-	go func() {
-		select {
-		case <-ctx1.Done():
-			cancel(ctx1.Err())
-		case <-ctx2.Done():
-			cancel(ctx2.Err())
-		}
-	}()
-	return ctx, cancel
+	ctx, cancel := context.WithCancelCause(ctx1)
+	stop := context.AfterFunc(ctx2, func() {
+		cancel(ctx2.Err())
+	})
+	return ctx, func(cause error) {
+		stop()
+		cancel(cause)
+	}
 }
 
 // AppliesToAny returns true if any of the biPredicates evaluate to true for the values.
